@@ -231,6 +231,10 @@ func checkResp(c *pbt.Ctx, cs RespCase) {
 	if !c.Protect("", func() { out, err = cv.Do(ctx, comp.Root, msg) }) {
 		return
 	}
+	// the caller's buffer is the caller's again: what was delivered must not point into it (NoCopyString is off)
+	for i := range msg {
+		msg[i] = 0xEE
+	}
 	desc := func() string {
 		var b strings.Builder
 		for _, fd := range sd.Fields {
